@@ -41,7 +41,7 @@ static Weights profile_weights(const std::string &prop) {
     else if (prop == "C03" || prop == "C20") { scale(t, {P::O_FD_REG, P::O_FD_DEREG, P::O_FD_WRITE, P::O_TMR_REG, P::O_TMR_DEREG, P::O_SRC_REG, P::O_SRC_DEREG, P::O_SRC_FIRE, P::O_TASK_RELEASE}, 3); scale(s, {P::O_ERRNO}, 4); }
     else if (prop == "C09") { scale(t, {P::O_FD_REG, P::O_FD_DEREG, P::O_TMR_REG, P::O_TMR_DEREG, P::O_SUB, P::O_UNSUB}, 3); }
     else if (prop == "C18") {
-        t = {{P::O_SET_TB, 4}, {P::O_TELL, 26}, {P::O_PUB, 6}, {P::O_BCAST, 2}, {P::O_SUB, 4}, {P::O_UNSUB, 1}, {P::O_BECOME, 2}, {P::O_UNBECOME, 2}, {P::O_BATCH_SIZE, 1},
+        t = {{P::O_SET_TB, 4}, {P::O_TELL, 26}, {P::O_PUB, 6}, {P::O_BCAST, 2}, {P::O_SUB, 4}, {P::O_UNSUB, 1}, {P::O_BECOME, 2}, {P::O_UNBECOME, 2}, {P::O_BATCH_SIZE, 1}, {P::O_BATCH_TIMEOUT, 1.5}, {P::O_DRAIN, 1},
              {P::O_SLEEP, 7}, {P::O_DISPATCH, 12}, {P::O_DRAIN, 1}, {P::O_STOP, 0.5}, {P::O_START, 1}, {P::O_PAUSE, 2}, {P::O_RESUME, 3}, {P::O_TMR_REG, 1}, {P::O_TMR_DEREG, 0.3}, {P::O_QUIT, 0.3}, {P::O_REG, 0.5}, {P::O_DEREG, 0.3}};
         s = {{P::O_TELL, 4}, {P::O_PUB, 2}, {P::O_SUB, 1}, {P::O_BECOME, 1}, {P::O_UNBECOME, 1}, {P::O_STASH, 1}, {P::O_SET_TB, 0.5}};
     }
@@ -155,7 +155,7 @@ static rc::Gen<std::vector<Op>> gen_phrase(const Weights &w, int nmods, const st
             case 2: v.push_back(mkop(P::O_SUB, s, 0, topic, 3)); v.push_back(mkop(P::O_BECOME, s, 0, 1)); break;
             case 3: v.push_back(mkop(P::O_BECOME, s, 0, 2)); v.push_back(mkop(P::O_UNBECOME, s)); v.push_back(mkop(P::O_BATCH_SIZE, s, 0, 2)); break;
             case 4: v.push_back(mkop(P::O_SUB, s, 0, topic, 0)); v.push_back(mkop(P::O_PAUSE, s)); v.push_back(mkop(P::O_RESUME, s)); break;
-            default: break;
+            default: v.push_back(mkop(P::O_BATCH_TIMEOUT, s, 0, 2 + topic)); v.push_back(mkop(P::O_SET_TB, s, 0, 0, 1)); v.push_back(mkop(P::O_TELL, r, s)); v.push_back(mkop(P::O_TELL, r, s)); v.push_back(mkop(P::O_SLEEP, 0, 0, 12)); v.push_back(mkop(P::O_DRAIN)); break;
             }
             v.push_back(mkop(P::O_SLEEP, 0, 0, std::get<5>(t))); v.push_back(mkop(P::O_DISPATCH, 0, 0, std::get<6>(t)));
             for (long i = 0; i < std::get<4>(t) / 2 + 1; i++) v.push_back(mkop(P::O_TELL, s, r));
